@@ -33,7 +33,7 @@ def step (line : String) : String :=
     match mp.toNat?, bt.toNat?, hl.toNat?, rs.toNat?, mb.toNat?, segsOf segs with
     | some mp, some bt, some hl, some rs, some mb, some ss =>
       let cfg : Config := { minPipeline := mp, batchThreshold := bt, headerLen := hl, readSize := rs,
-                            maxBuffer := mb, env := C15.envD }
+                            maxBuffer := mb, checked := true, codec := codec1, env := C15.envD }
       let acts := run cfg ss
       let rs := replies ExSt.init acts
       s!"n={rs.length} [{" ; ".intercalate (rs.map showReply)}] end={if crashed acts then "crash" else "eof"}"
